@@ -37,6 +37,21 @@ def entryOfJson (j : Json) : Except String EntryOp := do
   | "castTo" => pure .castTo
   | s => throw s!"entry op {s}"
 
+/-- the verdicts of the Lean format functions (`ipv4Ok`, `hostNameOk`) on every string the case's oracle table lists
+    for their tokens: the harness compares them with its own independent implementation and with typedpy -/
+def fmtVerdicts (j : Json) : Except String Json := do
+  match optField j "re" with
+  | none => pure (Json.arr #[])
+  | some x => do
+    let rows ← (← x.getArr?).toList.filterMapM fun t => do
+      let a ← t.getArr?
+      let p ← a[0]!.getStr?
+      let s ← a[1]!.getStr?
+      if p == ipv4Token || p == hostNameToken then
+        pure (some (Json.arr #[.str p, .str s, .bool (fmtMatch (fun _ _ => false) p s)]))
+      else pure none
+    pure (Json.arr rows.toArray)
+
 def run (j : Json) : Except String Json := do
   let O ← oraclesOfJson j
   let cls ← declOfJson (← j.getObjVal? "cls")
@@ -54,7 +69,7 @@ def run (j : Json) : Except String Json := do
         | .ok inst => runChainH O cls inst ops
         | .error e => .error e
       pure [("chainRes", resToJson r)]
-  let base := base ++ chainPart ++ [("wfDecl", Json.bool (wfDecl cls))]
+  let base := base ++ chainPart ++ [("wfDecl", Json.bool (wfDecl cls)), ("fmtLean", ← fmtVerdicts j)]
   let extra ← match optField j "impl" with
     | none => pure []
     | some x => do
